@@ -284,11 +284,11 @@ def main():
     ck.trusted = TRUSTED_DEFAULT + ['x**(1/3) of NumPy is not modelled: the model takes the exact rational cube root (theorem rootMat_sound), '
                                     'tied to bct only on perfect-cube weights within 1e-9']
     # T-gen: whole bodies of the eight clustering / transitivity routines re-extracted from /repo's current source
-    ck.cov['cores'] = cores.generate(families=['clust'])
+    ck.cov['cores'] = cores.generate(families=['clust', 'pinmeas'])
     for p_ in ck.cov['cores']['problems']:
         ck.corr_break('core extractor (translate/cores.py)', p_)
     ok = ck.lean_gate(['BctVerif.Props.C09'], extra_modules=['BctVerif.Model.Cluster'])
-    ck.lean_gate([], gen_modules=['BctVerif.Gen.CoresClust'])
+    ck.lean_gate([], gen_modules=['BctVerif.Gen.CoresClust', 'BctVerif.Gen.CoresPinMeas'])
     if ck.tier == 'thorough' and ok:
         ck.leanchecker(['BctVerif.Props.C09', 'BctVerif.Model.Cluster'])
     if ck.replay:
